@@ -61,7 +61,7 @@ CHECKS = {
   "Record boundaries and expected state from the reference decoder.",
   "property-based testing (proptest) for images + exhaustive/strided tail-fault enumeration, reference-replay oracle", "DESIGN.md §4 C10"),
  "C12": ("exploration",
-  "Generated records of all six kinds (every Option combination, boundary integers, empty / Unicode / multi-KiB strings) and arbitrary byte strings: encode equals the independent reference encoding and the reported length; decode of encoding++junk round-trips and consumes exactly n; decoding through readers that deliver the bytes in pieces gives the same record; an encode into a writer that runs full fails and does not disturb the next encode; every truncation fails; every single-byte mutation and arbitrary input agrees with the reference decoder (Ok / UnexpectedEof / invalid, record, consumed length), never panics, and decoded records re-encode canonically. Saved libFuzzer corpus replayed in every tier; thorough adds the coverage-guided campaign (cargo-fuzz target c12_decode with the same differential oracle in-target).",
+  "Generated records of all six kinds (every Option combination, boundary integers, empty / Unicode / multi-KiB strings) and arbitrary byte strings: encode equals the independent reference encoding and the reported length; decode of encoding++junk round-trips and consumes exactly n; decoding through readers that deliver the bytes in pieces gives the same record; an encode into a writer that runs full fails and does not disturb the next encode; structural damage with the checksum recomputed (byte set, body byte dropped / inserted, other State version) must be refused or decode canonically; every truncation fails; every single-byte mutation and arbitrary input agrees with the reference decoder (Ok / UnexpectedEof / invalid, record, consumed length), never panics, and decoded records re-encode canonically. Saved libFuzzer corpus replayed in every tier; thorough adds the coverage-guided campaign (cargo-fuzz target c12_decode with the same differential oracle in-target).",
   "Reference codec written from the format description; libFuzzer campaign pinned only approximately by -seed/-runs, its saved inputs are the reproducible unit.",
   "property-based testing (proptest) round-trip + differential decoding; coverage-guided fuzzing (cargo-fuzz/libFuzzer) with in-target differential oracle", "DESIGN.md §4 C12"),
  "C13": ("exploration",
